@@ -14,7 +14,7 @@ func init() {
 	verifRegister("VerifC09_PluginSchema", VerifC09_PluginSchema)
 }
 
-const verifNDescribed = 10
+const verifNDescribed = 11
 
 // verifDescribedScope builds a scope featuring one family of options (numeric options symbolic) and an input for it.
 func verifDescribedScope(k int) (*ScopeSchema, any) {
@@ -139,6 +139,12 @@ func verifDescribedScope(k int) (*ScopeSchema, any) {
 			"ins": []any{map[string]any{"leaf": map[string]any{"w": nondetInt64("w2")}}},
 			"x":   nondetInt64("x"),
 		}
+	case 10: // collections that are nil rather than empty: an object built with a nil property map, nil enum display data
+		s := NewScopeSchema(
+			NewObjectSchema("Holder", map[string]*PropertySchema{"e": p(NewRefSchema("Empty", nil), false), "x": p(NewIntSchema(nil, nil, nil), false)}),
+			NewObjectSchema("Empty", nil),
+		)
+		return s, map[string]any{"e": map[string]any{}, "x": nondetInt64("x")}
 	case 9: // enums whose values all carry display data
 		nm := "first"
 		s := NewScopeSchema(NewObjectSchema("E", map[string]*PropertySchema{
